@@ -117,6 +117,10 @@ CATALOGUE = {
          "  if (!(0 <= regular_at  &&  regular_at < size)) {",
          "  if (!(0 <= regular_at  &&  regular_at <= size)) {",
          "a[:, size] on a regular array is accepted and reads the first item of the next row / beyond the end"),
+        ("malloc-returns-null-on-failure", K + "allocators.cpp",
+         "    uint8_t* out = new uint8_t[bytelength];\n",
+         "    uint8_t* out;\n    try { out = new uint8_t[bytelength]; } catch (...) { out = nullptr; }\n",
+         "awkward_malloc reports an allocation failure malloc-style (null) and nobody checks: needs the allocation-failure fault"),
         ("numpy-carry-short-alloc", L + "array/NumpyArray.cpp",
          "kernel::malloc<void>(ptr_lib_, carry.length()*((int64_t)strides_[0])));",
          "kernel::malloc<void>(ptr_lib_, (carry.length() - 1)*((int64_t)strides_[0])));",
